@@ -24,7 +24,7 @@ N == Len(Trace)
 VARIABLES l, pass, edited, udel, ttlAt, ttlLB, taint, admTruth, listed, succRec, doneAt, hf, viol
 vars == <<l, pass, edited, udel, ttlAt, ttlLB, taint, admTruth, listed, succRec, doneAt, hf, viol>>
 
-NoJob == [ex |-> FALSE, started |-> FALSE, st |-> 0, kill |-> 0, del |-> FALSE, fz |-> FALSE, adm |-> FALSE, phase |-> "", state |-> "",
+NoJob == [ex |-> FALSE, started |-> FALSE, st |-> 0, kill |-> 0, del |-> FALSE, fz |-> FALSE, hold |-> FALSE, adm |-> FALSE, phase |-> "", state |-> "",
           conds |-> 0, kind |-> "", result |-> "", fints |-> 0, created |-> 0, running |-> 0, refs |-> <<>>, rv |-> 0]
 NoPass == [now0 |-> 0, j |-> NoJob, p |-> <<>>, stale |-> FALSE, skew |-> FALSE]
 
@@ -62,7 +62,7 @@ StateFails(e, sr) ==
              Fail("C09_Listed", C09_Listed(s.job, s.pods))
         \cup Fail("C09_ForeignEnds", C09_ForeignEnds(s.job, s.pods))
         \cup Fail("C10_Reaches", C10_Reaches(c, s.job, s.pods, NoKube(s)))
-        \cup Fail("C10_Progress", C10_Progress(c, s.job, s.pods))
+        \cup Fail("C10_Progress", C10_Progress(c, s.job, s.pods, s.now))
         \cup Fail("C12_KillCompletes", C12_KillCompletes(c, s.job, s.pods, s.now, NoKube(s)))
         \cup Fail("C12_PendingCompletes", C12_PendingCompletes(c, s.job, s.pods, s.now, NoKube(s)))
         \cup Fail("C13_DeletionCompletes", C13_DeletionCompletes(s.job, s.pods, NoKube(s)))
